@@ -33,6 +33,9 @@ CHECKS = {
  "C20": ("exploration", "bounded-exhaustive enumeration of secret/config models (all source-kind vectors, canary shapes, reference patterns, delivery routes) x all rendering histories up to length 2/3 x derived and reloaded projects, each output searched for every canary",
          "Every vector of source kinds for 1..3 secrets and 1..2 configs with at least one environment-sourced object, with unique canary values of 9 YAML-hostile shapes, referenced by a service, a build or nothing, delivered by the main file, an override or an include, is loaded; then every history of <=2 (3 thorough) renderings over {YAML, JSON} x {default, with secret content} is executed on the loaded project, on 6 derived projects and on the reloaded default rendering. Oracle per rendering: no canary (raw, per line, JSON/YAML-escaped) in default output; environment-sourced configs render their variable; with-content output decodes to exactly the canary; Content is on the project; the project is unchanged (including its behaviour in a later default rendering).",
          "Trusted: substring search over raw / JSON-escaped / per-line forms as the definition of a leak.", "§4 C20", "E3 E5"),
+ "C16": ("fault_enumeration", "exhaustive enumeration of the layer lattice (key in every subset of layers x spelling x discard), cross-reference placements and every present/absent x required/optional state vector of the env files, against a layering reference",
+         "A key is placed in every subset of {project environment, env_file 1..3} combined with every form of `environment` entry (none, value, empty, valueless) in list and mapping spelling, with discard on and off (256 loads); a value ${B} in env file 2 with B defined in exactly one of project environment / earlier file / earlier line / later file / nowhere; all 27 {present, absent-required, absent-optional} vectors of three env files (error must name a missing required file, optional ones are ignored); the same lattice for label_file 1..2 x labels. Each case runs the real loader and is compared with the precedence the statement gives.",
+         "Trusted: the reference precedence coded in props/c16.go. Outcomes the statement leaves open are not asserted.", "§4 C16", "E3 E4 E5"),
 }
 
 NOT_YET = {}
